@@ -616,7 +616,10 @@ class HTMLConverter(PDFConverter[AnyIO]):
             fontname_without_subset_tag = fontname.split("+")[-1]
             self.write(
                 '<span style="font-family: %s; font-size:%dpx">'
-                % (fontname_without_subset_tag, fontsize * self.scale * self.fontscale),
+                % (
+                    enc(fontname_without_subset_tag),
+                    fontsize * self.scale * self.fontscale,
+                ),
             )
             self._font = font
         self.write_text(text)
@@ -708,6 +711,10 @@ class HTMLConverter(PDFConverter[AnyIO]):
                 self.write_text(item.get_text())
 
         render(ltpage)
+        if self._font is not None:
+            # glyphs placed directly on the page: no end_div closes their span
+            self.write("</span>")
+            self._font = None
         self._yoffset += self.pagemargin
 
     def close(self) -> None:
@@ -966,7 +973,7 @@ class HOCRConverter(PDFConverter[AnyIO]):
     def write_text(self, text: str) -> None:
         if self.stripcontrol:
             text = self.CONTROL.sub("", text)
-        self.write(text)
+        self.write(enc(text))
 
     def write_word(self) -> None:
         if len(self.working_text) > 0:
@@ -981,13 +988,13 @@ class HOCRConverter(PDFConverter[AnyIO]):
                 "x_fsize %d'>%s</span>"
                 % (
                     (
-                        self.working_font,
+                        enc(self.working_font),
                         self.working_size,
                         bold_and_italic_styles,
                         self.bbox_repr(self.working_bbox),
-                        self.working_font,
+                        enc(self.working_font),
                         self.working_size,
-                        self.working_text.strip(),
+                        enc(self.working_text.strip()),
                     )
                 ),
             )
@@ -1005,6 +1012,8 @@ class HOCRConverter(PDFConverter[AnyIO]):
                 )
                 for child in item:
                     render(child)
+                if self.within_chars:
+                    self.write_word()
                 self.write("</div>\n")
             elif isinstance(item, LTTextLine):
                 self.write(
@@ -1012,6 +1021,8 @@ class HOCRConverter(PDFConverter[AnyIO]):
                 )
                 for child_line in item:
                     render(child_line)
+                if self.within_chars:
+                    self.write_word()
                 self.write("</span>\n")
             elif isinstance(item, LTTextBox):
                 self.write(
@@ -1030,7 +1041,7 @@ class HOCRConverter(PDFConverter[AnyIO]):
                     self.working_size = item.size
                 elif len(item.get_text().strip()) == 0:
                     self.write_word()
-                    self.write(item.get_text())
+                    self.write_text(item.get_text())
                 else:
                     if (
                         self.working_bbox[1] != item.bbox[1]
@@ -1038,6 +1049,9 @@ class HOCRConverter(PDFConverter[AnyIO]):
                         or self.working_size != item.size
                     ):
                         self.write_word()
+                        # the glyph begins the next word
+                        self.within_chars = True
+                        self.working_text = ""
                         self.working_bbox = item.bbox
                         self.working_font = item.fontname
                         self.working_size = item.size
